@@ -174,7 +174,7 @@ def lean_str(s):
     return '"' + s.replace("\\", "\\\\").replace('"', '\\"') + '"'
 
 
-def render(flags, words, tables, errors, wiring=()):
+def render(flags, words, tables, errors, wiring=(), werrors=()):
     out = []
     out.append("/-! GENERATED by tools/extract_tables.py from /repo's sources on every run – do not edit. -/")
     out.append("namespace Vata.Gen\n")
@@ -191,6 +191,9 @@ def render(flags, words, tables, errors, wiring=()):
             f"{lean_str(c['sanitized'])}, {lean_str(c['rel'])}⟩" for c in cases))
         out.append("]\n")
         out.append(f"def {tname}DefaultThrows : Bool := {'true' if dthrows else 'false'}\n")
+    out.append("/-- translator diagnostics of the cache-wiring extraction (kept apart from `parseErrors`: a deleter lambda rewritten into")
+    out.append("    another shape must not take the dispatch theorems down with it) -/")
+    out.append("def wiringErrors : List String := [" + ", ".join(lean_str(e) for e in werrors) + "]\n")
     out.append("/-- cache wiring: (file, memo tables captured by the macro-state cache's deleter with the key positions that hold a")
     out.append("    macro-state address (0 = first, 1 = second), the (table, position) pairs the deleter invalidates, number of other")
     out.append("    statements in the deleter) -/")
@@ -218,12 +221,12 @@ def regenerate(repo, dst):
         except Exception as e:  # noqa
             errors.append(rel + ": " + str(e))
             tables[tname] = ([], False)
-    wiring = []
+    wiring, werrors = [], []
     try:
         wiring = parse_cache_wiring(repo)
     except Exception as e:  # noqa
-        errors.append("cache wiring: " + str(e))
-    txt = render(flags, words, tables, errors, wiring)
+        werrors.append("cache wiring: " + str(e))
+    txt = render(flags, words, tables, errors, wiring, werrors)
     os.makedirs(os.path.dirname(dst), exist_ok=True)
     old = open(dst).read() if os.path.exists(dst) else None
     if old != txt:
